@@ -1,7 +1,7 @@
 """Sidecar contracts for pjrpc/server/dispatcher.py."""
 from pyvc.api import contract
-from spec.prims import class_is, implies, is_absent, member, old, same, trace, uf, ufv
-from spec.server import registered
+from spec.prims import class_is, ev_value, implies, is_absent, member, old, same, tlen, uf, ufv
+from spec.server import config_ok, method_failed, method_returned, ran_once, registered, request_ok
 from spec.user import error_ok
 
 from pjrpc.common.common import UNSET
@@ -27,37 +27,45 @@ class MethodBind:
         return same(ufv('bound_of', result), self)
 
 
-@contract('pjrpc.server.dispatcher:Dispatcher._handle_rpc_method', props=['C03', 'C02', 'C01', 'C15'])
+@contract('pjrpc.server.dispatcher:Dispatcher._handle_rpc_method',
+          also=('pjrpc.server.dispatcher:AsyncDispatcher._handle_rpc_method',),
+          props=['C03', 'C02', 'C01', 'C15', 'C11'])
 class HandleRpcMethod:
-    types = {'self': 'pjrpc.server.dispatcher:Dispatcher', 'method_name': 'str', 'params': 'opt:json',
+    types = {'self': 'pjrpc.server.dispatcher:BaseDispatcher', 'method_name': 'str', 'params': 'opt:json',
              'context': 'any'}
     raises_only = ('pjrpc.common.exceptions:JsonRpcError',)
+    modifies = ('$trace',)
+    result_type = 'encodable'
 
     def ensures_ran_once(self, method_name, params, context, result):
-        m = registered(self, method_name)
-        t, t0 = trace(), old(trace())
-        return (
-            m is not None and uf('binds', m, params)
-            and len(t) == len(t0) + 1
-            and same(ufv('bound_of', t[len(t0)][1]), m)
-            and t[len(t0)][4] == 'ret' and same(t[len(t0)][5], result)
-        )
+        return method_returned(self, method_name, params, old(tlen()), result)
 
     def ensures_on_JsonRpcError(self, method_name, params, context, exc):
-        m = registered(self, method_name)
-        t, t0 = trace(), old(trace())
-        if m is None:
-            # C03 / C15: an unknown name yields -32601 and executes nothing
-            return class_is(exc, MethodNotFoundError) and len(t) == len(t0)
-        if not uf('binds', m, params):
-            # C03: parameters that do not bind yield -32602 without running the method
-            return class_is(exc, InvalidParamsError) and len(t) == len(t0)
-        if not (len(t) == len(t0) + 1 and same(ufv('bound_of', t[len(t0)][1]), m) and t[len(t0)][4] == 'raise'):
-            return False
-        x = t[len(t0)][5]
-        if isinstance(x, JsonRpcError):
-            # C03: a protocol error raised by the method reaches the caller as the very same object
-            return same(exc, x)
-        # C03: any other exception is reported as the constant ServerError() - nothing of x leaks
-        return (class_is(exc, ServerError) and same(exc.code, -32000) and same(exc.message, 'Server error')
-                and exc.data is UNSET)
+        return method_failed(self, method_name, params, old(tlen()), exc)
+
+
+@contract('pjrpc.server.dispatcher:Dispatcher._handle_rpc_request',
+          also=('pjrpc.server.dispatcher:AsyncDispatcher._handle_rpc_request',),
+          props=['C02', 'C03', 'C04', 'C01', 'C11'])
+class HandleRpcRequest:
+    types = {'self': 'pjrpc.server.dispatcher:BaseDispatcher', 'request': '=pjrpc.common.v20:Request',
+             'context': 'any'}
+    raises_only = ('pjrpc.common.exceptions:JsonRpcError',)
+    modifies = ('$trace',)
+
+    def requires_config(self, request, context):
+        return config_ok(self) and request_ok(request)
+
+    def ensures_executed(self, request, context, result):
+        return method_returned(self, request._method, request._params, old(tlen()), ev_value(tlen() - 1))
+
+    def ensures_response(self, request, context, result):
+        # C02: a notification is never answered; a call is answered with the identical id and the
+        # method's return value unchanged (C04)
+        if request._id is None:
+            return result is UNSET
+        return (isinstance(result, Response) and class_is(result, Response) and same(result._id, request._id)
+                and same(result._result, ev_value(tlen() - 1)) and result._error is UNSET)
+
+    def ensures_on_JsonRpcError(self, request, context, exc):
+        return method_failed(self, request._method, request._params, old(tlen()), exc)
